@@ -1,4 +1,5 @@
 """C11 — each reachable schema file is read exactly once; others never matter."""
+from engine.rulekit import inline as I
 from engine.rulekit import mir as M
 from engine.rulekit import scans
 from rules import c12 as C12
@@ -59,103 +60,101 @@ def run(ck, F):
     ck.rule("R2", "once-only merge: the document returned for an import is passed to the merge function exactly once, per import child")
     ck.rule("R3", "keyed access only: Files.map is touched only by get/get_key_value/insert/from, or by a loop that merely resets flags")
     ck.rule("R4", "sibling files enter the table keyed by their file name and their content flows nowhere else")
+    C12.CRATE = F.lib
     g = scans.call_graph(F.lib)
     local = {b["path"] for b in F.lib.bodies if b.get("mir")}
-    parsers = []
-    for b in scans.bodies(F.lib):
-        if "yaserde_tests" in b["path"]:
-            continue
-        B = M.Body(b)
-        if B.calls_to(PARSE):
-            parsers.append(b)
-    ck.floor("R1", "functions parsing a document", len(parsers), 1)
     comps = sccs(g, local)
-    for pb in parsers:
-        comp = [c for c in comps if pb["path"] in c][0]
-        cyclic = len(comp) > 1 or pb["path"] in g.get(pb["path"], ())
-        fn = pb["path"]
-        B = M.Body(pb)
-        if not cyclic:
-            ck.ok("R1", "no-recursion", pb["span"], f"{fn} is not part of a call cycle", fn=fn)
+    # heads of the import recursion: functions of a call cycle that are entered from outside the cycle and whose collapsed body
+    # (everything of the reader inlined except the recursive call itself) parses a document
+    stop = lambda p: p.startswith(("model::", "<model::", "error::", "<error::"))
+    heads = []
+    for comp in comps:
+        cs = set(comp)
+        if len(comp) == 1 and comp[0] not in g.get(comp[0], ()):
             continue
-        ck.count("R1:functions in the import recursion", len(comp))
-        comp_set = set(comp)
-        parse_bb = B.calls_to(PARSE)[0][0]
-        # guard: load of <param>.processed whose true arm returns early, dominating the parse
-        loads = []
-        for bb, t in B.calls_to(C12.ATOMIC_LOAD):
-            os_ = M.trace(B, t["args"][0])
-            if os_ and all(o.kind == "arg" and "processed" in o.fields() for o in os_):
-                loads.append((bb, t, os_[0].local))
+        for fn in sorted(comp):
+            if "{closure" in fn or "yaserde_tests" in fn:
+                continue
+            entered = any(fn in g.get(c, ()) for c in local if c not in cs)
+            if not entered:
+                continue
+            B = I.collapsed_body(F.lib, fn, stop=stop)
+            if B is not None and B.calls_to(PARSE):
+                heads.append((fn, B, cs))
+    parsers = [b for b in scans.bodies(F.lib) if "yaserde_tests" not in b["path"] and M.Body(b).calls_to(PARSE)]
+    ck.floor("R1", "functions parsing a document", len(parsers), 1)
+    if not heads:
+        for pb in parsers:
+            ck.ok("R1", "no-recursion", pb["span"], f"{pb['path']} is not part of a call cycle", fn=pb["path"])
+    for fn, B, comp_set in heads:
+        pb = F.lib.body(fn)
+        ck.count("R1:functions in the import recursion", len(comp_set))
+        ck.count("R1:blocks of the collapsed recursion", len(B.reach))
+        is_head = lambda t: (M.Body.callee(t) or "") == fn or (M.Body.callee_decl(t) or "") == fn
+        rec_calls = list(I.calls_through_closures(F.lib, B, is_head, head=fn))
+        for parse_bb, pt in B.calls_to(PARSE):
+            # the file whose text is parsed
+            xml_roots = {(o.kind, getattr(o, "local", None)) for o in M.trace(B, pt["args"][0]) if o.kind == "arg"}
+            loads = []
+            for bb, t in B.calls_to(C12.ATOMIC_LOAD):
+                os_ = M.trace(B, t["args"][0])
+                if os_ and all("processed" in o.fields() for o in os_) and {(o.kind, getattr(o, "local", None)) for o in os_} & xml_roots:
+                    loads.append(bb)
+            guard_ok = any(B.dominates(bb, parse_bb) for bb in loads)
+            if not guard_ok:
+                # alternatively every recursive call site tests the flag of the file it is about to read
+                guard_ok = bool(rec_calls) and all(_tested_before(B, cbb, ct, where) for cbb, ct, where in rec_calls)
+            if guard_ok:
+                ck.ok("R1", "guard-before-parse", B.term(loads[0]).get("sp") if loads else pb["span"],
+                      "the processed flag is tested before the document is parsed (in the parser or at every recursive call site)", fn=fn)
+            else:
+                ck.violation("R1", "guard-before-parse", B.term(parse_bb).get("sp"),
+                             "the file is parsed without first testing its processed flag: a file imported twice is read twice", fn=fn)
         stores = []
         for bb, t in B.calls_to(C12.ATOMIC_STORE):
             os_ = M.trace(B, t["args"][0])
-            v = t["args"][1]
-            if os_ and all(o.kind == "arg" and "processed" in o.fields() for o in os_) and v.get("k") == "const" \
-                    and "true" in str(v.get("text")):
-                stores.append((bb, t, os_[0].local))
-        guard_ok = any(B.dominates(bb, parse_bb) for bb, _, _ in loads)
-        if not guard_ok:
-            # alternatively every recursive caller tests the flag of the file it is about to read
-            callers_ok = True
-            n_callers = 0
-            for c in comp:
-                CB = M.Body(F.lib.body(c))
-                for cbb, ct in CB.calls():
-                    if (M.Body.callee(ct) or "") != fn:
-                        continue
-                    n_callers += 1
-                    a0 = {getattr(o, "local", None) for o in M.trace(CB, ct["args"][0])} | {
-                        o.bb for o in M.trace(CB, ct["args"][0]) if o.kind == "call"}
-                    ok_here = False
-                    for lbb, lt in CB.calls_to(C12.ATOMIC_LOAD):
-                        los = M.trace(CB, lt["args"][0])
-                        same = any(("processed" in o.fields()) and ((getattr(o, "local", None) in a0) or (o.kind == "call" and o.bb in a0)) for o in los)
-                        if not same or lt.get("target") is None:
-                            continue
-                        sw = CB.term(lt["target"])
-                        if sw.get("k") == "switch":
-                            for v, tgt in sw["targets"]:
-                                if v == 0 and CB.dominates(tgt, cbb):
-                                    ok_here = True
-                    callers_ok = callers_ok and ok_here
-            guard_ok = callers_ok and n_callers > 0
-        if guard_ok:
-            ck.ok("R1", "guard-before-parse", B.term(loads[0][0]).get("sp") if loads else pb["span"], "the processed flag is tested before the document is parsed (in the parser or at every recursive call site)", fn=fn)
-        else:
-            ck.violation("R1", "guard-before-parse", pb["span"],
-                         "the file is parsed without first testing its processed flag: a file imported twice is read twice", fn=fn)
-        inner_calls = [(bb, t) for bb, t in B.calls() if (M.Body.callee(t) or "") in comp_set]
-        if not inner_calls:
-            ck.undecided("R1", "descent-calls", pb["span"], "no call that stays inside the import recursion found", fn=fn)
-        for bb, t in inner_calls:
-            callee = M.Body.callee(t)
-            if any(B.dominates(sbb, bb) and sbb != bb for sbb, _, _ in stores):
-                ck.ok("R1", f"mark-before:{callee}", B.term(bb).get("sp"), f"`processed <- true` dominates the descent into {callee}", fn=fn)
+            vals = M.trace(B, t["args"][1], M.IDENTITY_CALLS)
+            if os_ and all(o.kind == "arg" and "processed" in o.fields() for o in os_) and vals and all(
+                    v.kind == "const" and "true" in str(v.const.get("text")) for v in vals):
+                stores.append(bb)
+        if not rec_calls:
+            ck.undecided("R1", "descent-calls", pb["span"], "no call that re-enters the import recursion found", fn=fn)
+        seen_sites = set()
+        for cbb, ct, where in rec_calls:
+            site = (where or B).term(cbb if where is None else [x for x, t in where.calls() if t is ct][0]).get("sp") if True else None
+            if site in seen_sites:
+                continue
+            seen_sites.add(site)
+            if any(B.dominates(sbb, cbb) and sbb != cbb for sbb in stores):
+                ck.ok("R1", f"mark-before-descent:{_site_key(site)}", site, "`processed <- true` dominates the re-entry of the import recursion", fn=fn)
             else:
-                ck.violation("R1", f"mark-before:{callee}", B.term(bb).get("sp"),
-                             f"the descent into {callee} (which follows imports) is not dominated by the store `processed <- true`: "
-                             f"a self- or mutual import re-enters this file without bound", fn=fn)
-        # R2 : in the component, process_import-like call -> extend
-        for c in comp:
-            CB = M.Body(F.lib.body(c))
-            for bb, t in CB.calls():
-                d = M.Body.callee(t) or ""
-                if d.endswith("RustDocument::extend"):
-                    src = M.trace(CB, t["args"][1], M.IDENTITY_CALLS + ("ops::Try::branch",))
-                    callees = [M.Body.callee(o.term) for o in src if o.kind == "call"]
-                    if len(src) == 1 and callees and callees[0] in comp_set:
-                        # the producing call must not feed anything else
-                        pbb = src[0].bb
-                        others = [x for x, tt in CB.calls_to("RustDocument::extend") if x != bb and any(
-                            o.kind == "call" and o.bb == pbb for o in M.trace(CB, tt["args"][1], M.IDENTITY_CALLS + ("ops::Try::branch",)))]
-                        if others:
-                            ck.violation("R2", "merged-twice", CB.term(bb).get("sp"), "an imported document is merged more than once", fn=c)
-                        else:
-                            ck.ok("R2", "merge-once", CB.term(bb).get("sp"), f"result of {callees[0]} is merged exactly once", fn=c)
-                    else:
-                        ck.violation("R2", "merge-source", CB.term(bb).get("sp"),
-                                     f"the merged document does not come (only) from the import reader: {src}", fn=c)
+                ck.violation("R1", f"mark-before-descent:{_site_key(site)}", site,
+                             "the re-entry of the import recursion (following an import) is not dominated by the store `processed <- true`: "
+                             "a self- or mutual import re-enters this file without bound", fn=fn)
+        # R2: the document returned by the recursion is merged exactly once
+        merges = B.calls_to("RustDocument::extend")
+        produced = {}
+        for bb, t in merges:
+            src = M.trace(B, t["args"][1], M.IDENTITY_CALLS + ("ops::Try::branch",))
+            from_rec = [o for o in src if o.kind == "call" and is_head(o.term)]
+            others = [o for o in src if o not in from_rec and not _is_empty_doc(o) and not _is_error_value(o)]
+            if from_rec and not others:
+                for o in from_rec:
+                    produced.setdefault(o.bb, []).append(bb)
+                ck.ok("R2", f"merge-source:{_site_key(B.term(bb).get('sp'))}", B.term(bb).get("sp"), "the merged document is the one returned for the import", fn=fn)
+            else:
+                ck.violation("R2", "merge-source", B.term(bb).get("sp"),
+                             f"the merged document does not come (only) from the import reader: {src}", fn=fn)
+        for pbb, ms in produced.items():
+            if len(set(ms)) > 1:
+                ck.violation("R2", "merged-twice", B.term(pbb).get("sp"), "an imported document is merged more than once", fn=fn)
+            else:
+                ck.ok("R2", f"merge-once:{_site_key(B.term(pbb).get('sp'))}", B.term(pbb).get("sp"), "the document returned for an import is merged exactly once", fn=fn)
+        unmerged = [cbb for cbb, ct, where in rec_calls if where is None and cbb not in produced]
+        for cbb in unmerged:
+            flows = M.result_flow(B, cbb, B.term(cbb))
+            if {k for k, _ in flows} - {"propagated", "returned", "unwrapped"}:
+                ck.violation("R2", "import-result-dropped", B.term(cbb).get("sp"), f"the document read for an import is neither merged nor returned ({flows})", fn=fn)
     # ---- R3 keyed access
     allowed = ("::get", "::get_key_value", "::insert", "::contains_key", "::from", "::len", "::is_empty", "::new")
     n_acc = 0
@@ -187,26 +186,29 @@ def run(ck, F):
     if ub is None:
         ck.undecided("R4", "utils", "-", "utils::read_input_file_and_xsd_files_at_path not found")
         return
-    B = M.Body(ub)
+    B = I.inlined_body(F.lib, ub["path"], stop=lambda p: p.startswith(("reader::", "<reader::", "model::", "<model::", "error::")))
     adds = B.calls_to("reader::Files::add")
     news = B.calls_to("reader::Files::new")
     ck.floor("R4", "Files::new/add calls", len(adds) + len(news), 2)
-    ident = M.IDENTITY_CALLS + ("ops::Try::branch", "Option::<T>::ok_or")
+    ident = M.IDENTITY_CALLS + ("ops::Try::branch", "Option::<T>::ok_or", "Option::<T>::ok_or_else", "Option::<T>::unwrap", "Option::<T>::expect")
     for bb, t in adds + news:
-        key = M.trace(B, t["args"][1] if (M.Body.callee_decl(t) or "").endswith("add") else t["args"][0], ident)
-        key_ok = bool(key) and all(o.kind == "call" and (M.Body.callee_decl(o.term) or "").endswith("OsStr::to_str") for o in key)
-        if key_ok:
-            for o in key:
-                src = M.trace(B, o.term["args"][0], ident)
-                key_ok = key_ok and all(x.kind == "call" and (M.Body.callee_decl(x.term) or "").endswith("Path::file_name") for x in src)
-        xml_arg = t["args"][2] if (M.Body.callee_decl(t) or "").endswith("add") else t["args"][1]
-        xml = M.trace(B, xml_arg, ident)
+        is_add = (M.Body.callee_decl(t) or "").endswith("add")
+        key_arg = t["args"][1] if is_add else t["args"][0]
+        xml_arg = t["args"][2] if is_add else t["args"][1]
+        xml = [o for o in M.trace(B, xml_arg, ident) if not _is_error_value(o)]
         xml_ok = bool(xml) and all(o.kind == "call" and (M.Body.callee_decl(o.term) or "").endswith("fs::read_to_string") for o in xml)
+        # the key is the file_name() of the very path whose content is registered
+        key_paths, key_ok = _file_name_sources(F, B, key_arg, ident)
         if key_ok and xml_ok:
-            ck.ok("R4", f"keyed-by-file-name#{bb}", B.term(bb).get("sp"), "file registered under its file_name() with its full content", fn=ub["path"])
+            read_paths = set()
+            for o in xml:
+                read_paths |= _roots(B, o.term["args"][0])
+            key_ok = bool(key_paths) and key_paths <= read_paths
+        if key_ok and xml_ok:
+            ck.ok("R4", f"keyed-by-file-name#{'add' if is_add else 'new'}", B.term(bb).get("sp"), "file registered under its file_name() with its full content", fn=ub["path"])
         else:
-            ck.violation("R4", f"registration#{'add' if (bb, t) in adds else 'new'}", B.term(bb).get("sp"),
-                         f"a file is not registered as (file_name(), read_to_string(path)) (key ok: {key_ok}, content ok: {xml_ok})", fn=ub["path"])
+            ck.violation("R4", f"registration#{'add' if is_add else 'new'}", B.term(bb).get("sp"),
+                         f"a file is not registered as (file_name(), read_to_string(path)) of one path (key ok: {key_ok}, content ok: {xml_ok})", fn=ub["path"])
     # content of a sibling flows only into Files::add / Files::new
     for bb, t in B.calls_to("fs::read_to_string"):
         flows = M.result_flow(B, bb, t)
@@ -225,3 +227,94 @@ def _root_is_files(B, o):
     if o.kind in ("call", "aggregate"):
         return True
     return any("reader::Files" in t and "FilesToRead" not in t for t in tys) or any("reader::Files" in t for t in tys)
+
+
+def _site_key(sp):
+    """file name of a span (line numbers are not part of a key)"""
+    return str(sp).split(":")[0].rsplit("/", 1)[-1] if sp else "-"
+
+
+def _is_empty_doc(o):
+    return o.kind == "call" and (M.Body.callee_decl(o.term) or "").endswith(("RustDocument::empty",))
+
+
+def _is_error_value(o):
+    """`from_residual(..)`: an Err built by `?`; its Ok payload does not exist"""
+    return o.kind == "call" and (M.Body.callee_decl(o.term) or "").endswith("FromResidual::from_residual")
+
+
+def _tested_before(B, cbb, ct, where):
+    """The recursive call (in B at cbb, or in a closure created at cbb) is made only on the arm where the processed flag of the file
+    it passes was loaded as false."""
+    body = where or B
+    bbs = [x for x, t in body.calls() if t is ct]
+    if not bbs:
+        return False
+    call_bb = bbs[0]
+    a0 = M.trace(body, ct["args"][0])
+    roots = {getattr(o, "local", None) for o in a0} | {o.bb for o in a0 if o.kind == "call"}
+    for lbb, lt in body.calls_to(C12.ATOMIC_LOAD):
+        los = M.trace(body, lt["args"][0])
+        same = any(("processed" in o.fields()) and ((getattr(o, "local", None) in roots and getattr(o, "local", None) is not None) or (o.kind == "call" and o.bb in roots)) for o in los)
+        if not same or lt.get("target") is None:
+            continue
+        # the loaded value decides a switch; the call must be dominated by the `false` arm
+        for sbb in sorted(body.reach):
+            sw = body.term(sbb)
+            if sw.get("k") != "switch":
+                continue
+            if not any(o.kind == "call" and o.bb == lbb for o in M.trace(body, sw["discr"], M.IDENTITY_CALLS)):
+                continue
+            for v, tgt in sw["targets"]:
+                if v == 0 and body.dominates(tgt, call_bb):
+                    return True
+    return False
+
+
+NAME_KEEPING = ("OsStr::to_str", "string::ToString::to_string", "borrow::ToOwned::to_owned", "convert::AsRef::as_ref", "String::as_str",
+                "convert::Into::into", "convert::From::from", "clone::Clone::clone", "ops::Deref::deref")
+
+
+def _roots(B, operand):
+    """identity of the places an operand can denote: argument locals and producing call blocks"""
+    out = set()
+    for o in M.trace(B, operand, M.IDENTITY_CALLS + ("Path::new", "PathBuf::as_path", "fs::DirEntry::path")):
+        if o.kind == "arg":
+            out.add(("arg", o.local))
+        elif o.kind == "call":
+            out.add(("call", o.bb))
+        else:
+            out.add((o.kind, getattr(o, "bb", None)))
+    return out
+
+
+def _file_name_sources(F, B, operand, ident):
+    """(roots of the paths whose file_name() the operand is, ok): ok when every origin is `Path::file_name(p)` converted to text by
+    name-keeping steps only (to_str directly, or through and_then / map with to_str or a closure that only calls such steps)."""
+    paths = set()
+    ok = True
+    for o in M.trace(B, operand, ident):
+        if _is_error_value(o):
+            continue  # the Err built by a `?` in an inlined helper: it has no Ok payload
+        if o.kind != "call":
+            return set(), False
+        d = M.Body.callee_decl(o.term) or ""
+        if d.endswith("OsStr::to_str"):
+            sub, ok2 = _file_name_sources(F, B, o.term["args"][0], ident)
+        elif d.endswith(("Option::<T>::and_then", "Option::<T>::map")):
+            keeps = False
+            for f in M.trace(B, o.term["args"][1], ()):
+                if f.kind == "const" and (f.const.get("fn_path") or "").endswith(NAME_KEEPING):
+                    keeps = True
+                elif f.kind == "aggregate" and f.rv.get("closure"):
+                    cb = F.lib.body(f.rv["closure"])
+                    keeps = cb is not None and cb.get("mir") and all((M.Body.callee_decl(t) or "").endswith(NAME_KEEPING) for _, t in M.Body(cb).calls())
+            sub, ok2 = _file_name_sources(F, B, o.term["args"][0], ident)
+            ok2 = ok2 and keeps
+        elif d.endswith("Path::file_name"):
+            sub, ok2 = _roots(B, o.term["args"][0]), True
+        else:
+            return set(), False
+        paths |= sub
+        ok = ok and ok2
+    return paths, ok and bool(paths)
